@@ -13,7 +13,7 @@ def conds(tier):
     out.append(Cond("over2n", ctx.mk_over3(P, 2, nested=True), ctx.over_params(2), pin=2, budget=200,
                     builds=("C", "P"),
                     family="F-CTX nested overriding tasks", encodes=ctx.ENC_CTX))
-    out.append(Cond("ctx2", ctx.mk_ctx2(P, 2, (0, 1, 6, 8), (1, 4, 5, 7, 8, 9, 10, 13), 4), ctx.ctx2_params(2, 4, 8, 4, ho=0 if q else 1), pin=3,
+    out.append(Cond("ctx2", ctx.mk_ctx2(P, 2, (0, 1, 6, 8), (1, 4, 5, 7, 8, 9, 10, 13, 14), 4), ctx.ctx2_params(2, 4, 9, 4, ho=0 if q else 1), pin=3,
                     budget=200, family="F-CTX sv/attr overrides, exits", encodes=ctx.ENC_CTX))
     out.append(Cond("ctxsync", ctx.mk_ctx2(P, 2, (0, 5, 1), (1, 4, 8), 2), ctx.ctx2_params(2, 3, 3, 2, ho=0), pin=3,
                     budget=200, family="F-CTX x F-REENTRY: overrides entered after synchronous calls", encodes=ctx.ENC_CTX))
@@ -23,6 +23,6 @@ def conds(tier):
     if not q:
         out.append(Cond("over4", ctx.mk_over3(P, 4), ctx.over_params(4), pin=4, budget=900,
                         family="F-CTX four pending overriders", encodes=ctx.ENC_CTX))
-        out.append(Cond("ctx3", ctx.mk_ctx2(P, 3, (0, 1, 6, 8), (1, 2, 4, 5, 7, 8, 9, 10, 13), 5), ctx.ctx2_params(3, 4, 9, 5), pin=3,
+        out.append(Cond("ctx3", ctx.mk_ctx2(P, 3, (0, 1, 6, 8), (1, 2, 4, 5, 7, 8, 9, 10, 13, 14), 5), ctx.ctx2_params(3, 4, 10, 5), pin=3,
                         budget=1800, family="F-CTX three steps", encodes=ctx.ENC_CTX))
     return out
